@@ -214,9 +214,6 @@ fn run_one(
         Some(choices) => {
             let mut done = done;
             for c in choices {
-                if lock.mismatch.is_some() {
-                    break;
-                }
                 let Some(ch) = parse_choice(c, n) else { continue };
                 lock.step(ch);
                 if lock.sim.quiescent() {
@@ -251,7 +248,7 @@ fn run_one(
         violations.push((format!("oracle={kind}"), format!("at step {step}: {msg}"), true));
     }
     // 3. exactly-once / FIFO
-    if lock.mismatch.is_none() || !lock.sim.faults.is_empty() {
+    {
         for (sig, msg) in delivery_oracle(&lock, sc, quiescent) {
             violations.push((sig, msg, true));
         }
@@ -278,7 +275,8 @@ fn run_one(
         violations.push((sig, msg, true));
     }
     // 4. termination
-    if sc.terminates && !finished && lock.mismatch.is_none() {
+    let explained = lock.oracle_failures.iter().any(|x| x.1 == "lost-wakeup-select-never-started");
+    if sc.terminates && !finished && !explained {
         violations.push((
             "oracle=hang".to_string(),
             format!("scenario terminates by construction but the system became {} without a result after {} steps", if quiescent { "quiescent" } else { "stuck (step budget)" }, lock.steps),
